@@ -9,7 +9,8 @@ LEVEL_NOTE = ("Trusted: the Lean 4.33 kernel; axioms propext / Classical.choice 
               "no native_decide, no sorry); the hand-written Lean model of the Rust (lean/UnicLocale/Model) — tied to /repo's current "
               "source by the correspondence run of this check (differential, bounded by its generator streams) and, for the tables, by "
               "the translator that re-reads the compiled statics on every run (the CLDR JSON translator is cross-checked by an independent "
-              "reader written in Lean), and, for the loop-free functions listed in the evidence under source_tie, by the translator srclean "
+              "reader written in Lean), and, for the functions listed in the evidence under source_tie (124: subtag code, parsers with their loops, "
+              "Display impls, mutators, the likely-subtags cascade, the integer conversions, the proc macros), by the translator srclean "
               "(Rust source text -> Lean definition, regenerated on every run) with a theorem UL.SrcTie.<f>_eq that the source-derived "
               "definition equals the model's for all inputs; the Spec files as the reading of the property; "
               "tinystr / std containers / derived traits modelled by contract.")
@@ -62,12 +63,19 @@ TEXT = {
             "every row is reachable by the look-up. Tie: the tables are read from the compiled crate through the cfg-guarded re-export "
             "(translator), the JSON by an independent translator. Search: CLDR keys and layout names queried on the real crate.",
             "translation of the compiled tables and the CLDR JSON into Lean, equalities decided by the kernel"),
-    "C20": ("The model has exactly one configuration parameter (character_direction's likely flag); theorems pin the extent of that one "
-            "difference (C14). The property is decided for the code by the tie: the same model must correspond to the harness built "
-            "against none / likelysubtags / all features (quick) or all 8 combinations (thorough) on the parsing, serialising, comparing, "
-            "matching and mutating streams, and every transcript is compared with the feature-less build. This is the thinnest use of the "
-            "technique: the theorem is structural, the decision is N correspondence runs.",
-            "structural theorem about the model + correspondence of every feature build to the same model"),
+    "C20": ("Configuration tie (theorems, regenerated on every run): srclean translates the CURRENT source text of every source-tied function once per "
+            "cargo feature set of the implementation crates (#[cfg] / #[cfg_attr] / cfg! resolved for exactly that set: none, serde, "
+            "likelysubtags+serde+binary; the default translation is likelysubtags) and UL.CfgTie.<config>.<f>_eq proves each definition (and each of "
+            "its loops) equal to the default translation for ALL inputs; chained with UL.SrcTie.<f>_eq, every parser, printer, canonicalize, matches, "
+            "== &str, subtag constructor, mutator and proc macro is ONE model function in all feature sets (SrcTie/TransferCfg.lean); the item text of "
+            "the modelled types (derive lists) and the set of trait impls are compared too; items that exist only with a feature (maximize / minimize) "
+            "are reported absent = extra API. The one configuration-dependent body, character_direction, is translated per configuration and the two "
+            "translations differ only where the model's two flags differ: no listed script decides and the language is RTL-listed, where the "
+            "feature-less build says RTL (direction_configs_differ_only, from C14). Correspondence: the same model answers for the harness built "
+            "against none / likelysubtags / all features (quick) or all 8 combinations (thorough, and whenever the configuration tie or the cfg extent "
+            "is not the expected one), every transcript also compared with the feature-less build.",
+            "proof that every source-derived definition is the same function in every feature configuration (translation per configuration) + "
+            "correspondence of every feature build to the same model"),
     "C07": ("Theorems, generic in the tables (any tables satisfying tablesWF): maximize never panics/errs, fills all three, keeps every "
             "given subtag (valid input), flag true iff a look-up hit, false leaves the identifier unchanged, variants/extensions untouched, "
             "idempotent; lifted to Locale through step. Needs only 'a returned row is in the table and matches the key', not binary-search "
@@ -95,7 +103,9 @@ TEXT = {
             "safe API; LanguageIdentifier and every subtag type compared with strings around their text; the field-by-field order is "
             "recomputed from the rendered fields and judges the implementation.",
             "proof of order laws and of display injectivity via the round trip"),
-    "C17": ("Theorems: unpack(pack s) = s and pack injective for every valid subtag of each type (fits u64/u32, never 0); "
+    "C17": ("Theorems: unpack(pack s) = s and pack injective for every valid subtag of each type (fits u64/u32, never 0), and the conversions "
+            "themselves (From<subtag> for u32 / u64 / Option<u64>, from_raw_unchecked, from_raw_parts_unchecked) are pack / unpack / the record as "
+            "their own source text says (source tie, tinystr's all_bytes / from_bytes_unchecked by contract); "
             "from_parts(into_parts x) = x on the invariant (exact characterisation of when it fails: Some([]) / unsorted); from_parts with "
             "variants in any order with duplicates = parsing the joined string; Locale parts with the extension string re-parsed (C05). "
             "Correspondence: parts / raw round trips (by value and by reference) and from_parts vs parse on generated values, and the parts round "
@@ -121,12 +131,17 @@ TEXT = {
             "value, with the invariant and the re-parse (C05) after every step (histories_full). Correspondence: exhaustive short and random "
             "long histories, every getter after every step; the reference model itself is also run against the implementation.",
             "refinement proof to an abstract set/map specification, induction over operation lists"),
-    "C16": ("Theorems about the model of the expansions (Model/Macros.lean): for EVERY literal each macro yields the value run-time parsing "
-            "yields, or a compile-time error iff run-time parsing fails; locale! never fails at run time (the emitted extension string "
-            "re-parses, C05); list macros compile iff every element does. rustc / proc_macro_hack / syn / quote are modelled by contract; "
-            "that contract is exercised on every run by compiling and running a generated crate (one invocation per line, errors attributed "
-            "to lines through the expansion chain) against /repo.",
-            "proof over a model of the macro expansions; generated-program correspondence"),
+    "C16": ("Theorems: for EVERY literal each macro yields the value run-time parsing yields, or a compile-time error iff run-time parsing fails; "
+            "locale! never fails at run time (the emitted extension string re-parses, C05); list macros compile iff every element does "
+            "(Model/Macros.lean). Source tie: the six proc macros are translated from the macro crates' current source text (srclean tr_macro.rs: the "
+            "literal parsed at build time by the source-derived FromStr, every quote! body read as a term of the expansion language UL.MTok) and "
+            "proved equal to that model (UL.SrcTie.Macros.*_eq), so the theorems hold of the source-derived macros against the source-derived "
+            "run-time parsers (SrcTie/TransferMacros.lean). By contract: how rustc evaluates an expansion (Model/MacroSem.lean: interpolated integer = "
+            "that literal, from_raw_unchecked = unpack, type error = compile error), proc_macro_hack / syn / quote, the macro_rules list macros; that "
+            "contract is exercised on every run by compiling and running a generated crate (one invocation per line, errors attributed to lines "
+            "through the expansion chain) against /repo.",
+            "proof over the expansions as the macro crates' source text defines them; rustc's evaluation of an expansion by contract, exercised by "
+            "a generated program"),
     "C19": ("Theorems about the model of serde.rs: serialize = the canonical string (ASCII letters, digits, '-' only, so no JSON escape); "
             "deserialize(str s) = from_bytes s; deserialize(serialize x) = ok x for every obtainable x (C05); non-string and ill-formed "
             "inputs are errors; never a panic. serde / serde_json are modelled by contract, exercised by the serde stream (JSON texts with "
@@ -162,7 +177,7 @@ def main():
             "level_claimed": {"category": "proof", "text": text, "design_ref": "DESIGN.md §4 " + pid},
             "level_note": LEVEL_NOTE,
             "technique": "machine-checked proof in Lean 4 (" + tech + "), model tied to the code by differential correspondence"
-                         + (" and, for the loop-free functions it rests on, by translation of the current source text into Lean with "
+                         + (" and, for the functions it rests on, by translation of the current source text into Lean with "
                             "equality theorems (source tie)" if pid in props.SRC_TIE else ""),
         })
     all_ids = [json.loads(l)["id"] for l in open(os.path.join(ROOT, "properties.jsonl"))]
